@@ -311,6 +311,8 @@ def fam_execute(rng):
         out = rng.choice([{"kind": "none"}] + [k for k in FAIL_KINDS if k["kind"] != "baseExc"])
         args = {"args": [gen_arg(rng) for _ in range(rng.randint(0, 2))], "kwargs": {k: gen_arg(rng) for k in rng.sample(["a", "b"], rng.randint(0, 1))}}
         e = {"pid": pid, "fl": fl, "script": [["end", out]], "role": "executed", "out": out, "args": args}
+        if fl != "thr" and rng.random() < 0.25:
+            e["plainfn"] = True
         pid += 1
         execs.append(e)
         ctx = rng.choice(["outside", "thr"] + [c for c in ("aio", "trio") if c != fl])
@@ -420,6 +422,8 @@ def fam_threads(rng):
     for _ in range(rng.randint(0, 4)):
         fl = rng.choice(["aio", "trio"])
         e = {"pid": pid, "fl": fl, "script": [["spin", 5], ["end", {"kind": "none"}]], "role": "executed"}
+        if rng.random() < 0.4:
+            e["plainfn"] = True      # a plain callable that does something before it hands back its coroutine
         pid += 1
         execs.append(e)
         call = ["execute", e["pid"]]
